@@ -248,6 +248,10 @@ def pointwise_global_reconstruction_distortion(
         .fit(X_train, estimator.predict(X_train))
         .predict(X_test)
     )
+    # the orthogonal map acts in the zero-padded common space of the two feature sets,
+    # which is wider than the predictions when X has more features than Y
+    n_padded = orthogonal_predictions_Y_test.shape[1] - predictions_Y_test.shape[1]
+    predictions_Y_test = np.pad(predictions_Y_test, [(0, 0), (0, n_padded)])
 
     return np.linalg.norm(predictions_Y_test - orthogonal_predictions_Y_test, axis=1)
 
